@@ -452,6 +452,14 @@ F("field_validation_stops_at_none", [(PT, "        if i is None:\n            co
 F("regex_true_on_non_string", [(QR, "            if not isinstance(value, str):\n                return False\n",
                                 "            if not isinstance(value, str):\n                return True\n", 1)], ["C09"])
 F("get_measurements_scan_collects_nothing", [(DB, "            names.add(self._storage._deserialize_measurement(item))\n", "            pass\n", 0)], ["C07"])
+F("remove_timestamps_tests_timestamp", [(IDX, "            if pos not in r_items:\n", "            if ts not in r_items:\n", 0)],
+  ["C06", "C02", "C01", "C07", "C10"])
+F("remove_timestamps_positions_get_timestamps", [(IDX, "new_positions.append(pos)", "new_positions.append(ts)", 0)],
+  ["C06", "C02", "C01", "C07", "C10"])
+F("remove_tags_filters_the_value_string", [(IDX, "new_items = [i for i in old_items if i not in r_items]", "new_items = [i for i in value if i not in r_items]", 0)],
+  ["C06", "C02", "C01", "C07", "C10"])
+F("get_timestamps_pairs_lose_position", [(IDX, "zipped = [(i, j) for i, j in zip(self._timestamps, self._storage_pos_sorted_by_ts)]",
+                                          "zipped = [(i, i) for i, j in zip(self._timestamps, self._storage_pos_sorted_by_ts)]", 0)], ["C07"])
 S("remove_candidate_counter_never_advances", [(DB, "                removed_items.add(i)\n                j += 1\n", "                removed_items.add(i)\n                j += 0\n", 0)],
   note="equivalent: the early-exit test never fires, `i not in items` decides alone")
 S("remove_keep_counter_counts_double", [(DB, "                    new_position += 1\n                    keep_count += 1\n", "                    new_position += 1\n                    keep_count += 2\n", 0)],
